@@ -1,7 +1,9 @@
 SPECIFICATION Spec
 CONSTANTS
   MaxCC = 2
-  MaxRes = 3
+  MaxRev = 2
+  ResVals = {1, 2}
+  Obs = {"o1"}
   Variant = "latechain"
 INVARIANT AtRestLatest
 CHECK_DEADLOCK FALSE
